@@ -124,10 +124,10 @@ def run_framer(data, kind, rsize, skip, chooser=None, max_items=None, via="ccsds
     _verif.sink = sink
     try:
         kw = dict(buffer_read_size_bytes=None if rsize == 0 else rsize, skip_header_bytes=skip)
+        kw.update(gen_kwargs or {})
         if isinstance(via, str) and via == "ccsds":
             gen = packets.ccsds_generator(src, **kw)
         else:
-            kw.update(gen_kwargs or {})
             gen = via.packet_generator(src, **kw)
         try:
             for p in gen:
